@@ -17,7 +17,7 @@ import (
 func valuesParse(s string) (*values.Value, error) { return values.Parse(s) }
 
 // replay re-evaluates the oracle on the input of a replay file and prints the failures as JSON.
-func replay(repo, file, thriftgo, plug string) int {
+func replay(repo, file, thriftgo, plug, variants string) int {
 	b, err := os.ReadFile(file)
 	if err != nil {
 		fmt.Fprintln(os.Stderr, err)
@@ -41,7 +41,7 @@ func replay(repo, file, thriftgo, plug string) int {
 	work := filepath.Join(dir, "c11work")
 	os.MkdirAll(work, 0o755)
 	os.Chdir(work)
-	h := &harness{repo: repo, sc: sc, out: vl.NewOut(dir), r: vl.NewRng(1), work: work, tier: "quick", thriftgo: thriftgo, plug: plug}
+	h := &harness{repo: repo, sc: sc, out: vl.NewOut(dir), r: vl.NewRng(1), work: work, tier: "quick", thriftgo: thriftgo, plug: plug, variants: parseVariants(variants)}
 	str := func(k string) string {
 		var s string
 		json.Unmarshal(doc.Input[k], &s)
